@@ -173,6 +173,38 @@ func unwrapLoad(v ssa.Value) ssa.Value {
 		if !ok || u.Op != token.MUL {
 			return v
 		}
+		// field of a local struct variable assigned exactly once
+		if fa, ok := u.X.(*ssa.FieldAddr); ok {
+			if la, ok := fa.X.(*ssa.Alloc); ok && !allocCaptured(la) {
+				var vals []ssa.Value
+				whole := false
+				for _, r := range refs(la) {
+					switch x := r.(type) {
+					case *ssa.FieldAddr:
+						if x.Field != fa.Field {
+							continue
+						}
+						for _, rr := range refs(x) {
+							if st, ok := rr.(*ssa.Store); ok && st.Addr == ssa.Value(x) {
+								vals = append(vals, st.Val)
+							}
+						}
+					case *ssa.Store:
+						if x.Addr == ssa.Value(la) {
+							whole = true
+						}
+					case *ssa.UnOp:
+					default:
+						whole = true // address escapes
+					}
+				}
+				if !whole && len(vals) == 1 {
+					v = vals[0]
+					continue
+				}
+			}
+			return v
+		}
 		cell := resolveCell(u.X)
 		a, ok := cell.(*ssa.Alloc)
 		if !ok {
